@@ -104,6 +104,7 @@ func (c17) Plan(tier string) []fw.Unit {
 	us = append(us, fw.Unit{Check: "C17", Kind: "key-pairs", Tier: tier, Spec: fw.Spec(enumSpec{})})
 	us = append(us, fw.Unit{Check: "C17", Kind: "expr-args", Tier: tier, Spec: fw.Spec(enumSpec{})})
 	us = append(us, fw.Unit{Check: "C17", Kind: "aggregates", Tier: tier, Spec: fw.Spec(enumSpec{})})
+	us = append(us, fw.Unit{Check: "C17", Kind: "same-predicate", Tier: tier, Spec: fw.Spec(enumSpec{})})
 	// strategy block without a timeout, a window output buffer of one result, a sink taking 20 ms per batch, rows fed
 	// back to back: the window must wait for its consumer (predicates count(*) >= 1 and count(*) >= 2)
 	us = append(us, fw.Unit{Check: "C17", Kind: "block", Tier: tier, Spec: fw.Spec(enumSpec{Cfg: 0})}, fw.Unit{Check: "C17", Kind: "block", Tier: tier, Spec: fw.Spec(enumSpec{Cfg: 1})})
@@ -175,6 +176,87 @@ func c17Typed() fw.Result {
 		})
 	}
 	a.sample(map[string]any{"types": "int, int8..int64, uint..uint64, float32, float64, NULL", "len": 3})
+	return a.result()
+}
+
+// c17SamePredicate: several queries of ONE process share the text of their TRIGGER WHEN predicate and differ in
+// their SELECT lists (the predicate's aggregate is selected under another alias, not selected, or the alias names
+// another aggregate), in every order: each fires where the predicate holds on its own rows.
+func c17SamePredicate() fw.Result {
+	a := newAcc("C17", "det-global-same-predicate")
+	type q struct {
+		sel  string
+		cols []string
+	}
+	qs := []q{{"sum(v) AS total", []string{"total=sum"}}, {"count(*) AS n", []string{"n=count"}}, {"count(*) AS total", []string{"total=count"}}, {"max(v) AS total, sum(v) AS s", []string{"total=max", "s=sum"}}}
+	preds := []string{"sum(v) >= 10", "count(*) >= 3 AND max(v) > 1"}
+	vals := []float64{5, 1, 5, 5, 2, 5}
+	perms := [][]int{{0, 1, 2, 3}, {3, 2, 1, 0}, {1, 0, 3, 2}, {2, 3, 0, 1}}
+	for _, pred := range preds {
+		for _, order := range perms {
+			for _, qi := range order {
+				qq := qs[qi]
+				sql := "SELECT k, " + qq.sel + " FROM stream GROUP BY k, GLOBAL WINDOW TRIGGER WHEN " + pred
+				var want []string
+				var cur []float64
+				for _, v := range vals {
+					cur = append(cur, v)
+					sum, mx := 0.0, cur[0]
+					for _, x := range cur {
+						sum += x
+						if x > mx {
+							mx = x
+						}
+					}
+					fire := sum >= 10
+					if pred != preds[0] {
+						fire = len(cur) >= 3 && mx > 1
+					}
+					if fire {
+						var parts []string
+						for _, c := range qq.cols {
+							kv := strings.SplitN(c, "=", 2)
+							val := map[string]float64{"sum": sum, "count": float64(len(cur)), "max": mx}[kv[1]]
+							parts = append(parts, fmt.Sprintf("%s=%v", kv[0], val))
+						}
+						want = append(want, strings.Join(parts, ","))
+						cur = nil
+					}
+				}
+				r := detExec(sql, detOpts{Eager: true, Horizon: 100 * vtime.Millisecond}, func(e *Env) {
+					for i, v := range vals {
+						e.Emit(Row{"id": i + 1, "k": "a", "v": v})
+					}
+				})
+				a.r.Evaluations++
+				a.r.States++
+				a.r.Nontrivial++
+				a.r.Transitions += int64(r.Steps)
+				cs := map[string]any{"sql": sql, "values": vals, "queries_executed_before_in_this_process": "see order"}
+				if r.ExecErr != "" || r.Status != sched.StatusOK {
+					a.fail("C17|same-predicate|exec", r.ExecErr+" "+r.Status.String()+" "+firstLine(r.Panic), cs, nil, nil)
+					continue
+				}
+				var got []string
+				for _, b := range r.Batches {
+					for _, row := range b {
+						var parts []string
+						for _, c := range qq.cols {
+							name := strings.SplitN(c, "=", 2)[0]
+							x, _ := num(row[name])
+							parts = append(parts, fmt.Sprintf("%s=%v", name, x))
+						}
+						got = append(got, strings.Join(parts, ","))
+					}
+				}
+				a.outcome(strings.Join(got, ";"))
+				if strings.Join(got, ";") != strings.Join(want, ";") {
+					a.fail("C17|same-predicate|depends-on-earlier-queries", fmt.Sprintf("%s (executed after other queries with the same TRIGGER WHEN text in this process) over v=%v: fired %v, reference %v", sql, vals, got, want), cs, want, got)
+				}
+			}
+		}
+	}
+	a.sample(map[string]any{"predicates": preds, "select_lists": len(qs), "orders": len(perms)})
 	return a.result()
 }
 
@@ -376,6 +458,9 @@ func (c17) Run(u fw.Unit) fw.Result {
 	}
 	if u.Kind == "aggregates" {
 		return c17Aggregates(u.Tier)
+	}
+	if u.Kind == "same-predicate" {
+		return c17SamePredicate()
 	}
 	sp := parseEnum(u)
 	block := u.Kind == "block"
